@@ -143,3 +143,9 @@ func (this *Item) getString() string {
 func (this *Item) String() string {
 	return this.str
 }
+
+// key identifies the item within an item set: two alternatives with the same
+// text are different productions and must not be merged.
+func (this *Item) key() string {
+	return fmt.Sprintf("%d %s", this.ProdIdx, this.str)
+}
